@@ -645,7 +645,10 @@ func (gen *Generator) GenerateInclude(args []Sexp) error {
 		case *SexpPair:
 			expr := item
 			for expr != SexpNull {
-				list := expr.(*SexpPair)
+				list, isPair := expr.(*SexpPair)
+				if !isPair {
+					return fmt.Errorf("include: improper list of paths ends in type %T val %v", expr, expr.SexpString(nil))
+				}
 				if err := sourceItem(list.Head); err != nil {
 					return err
 				}
